@@ -273,6 +273,48 @@ func c18() []*Ob {
 						c.Violation("pair:updateGeneration", fn.Pos(), "updateGeneration no longer moves the same amount out of the old and into the new generation (sub=%d add=%d store=%d)", len(sub), len(add), len(st))
 					}
 				}
+				if fn := c.Fn("(*cache.Cache).save"); fn != nil {
+					for _, ad := range CallsIn(fn, Callee("(*go.uber.org/atomic.Uint64).Add")) {
+						fromEntry := DerivesFrom(Receiver(ad), func(v ssa.Value) bool { return ValueIsField(v, "cache.entry", "gen") })
+						fromCache := DerivesFrom(Receiver(ad), func(v ssa.Value) bool { return ValueIsField(v, "cache.Cache", "currentGeneration") })
+						if fromEntry && !fromCache {
+							c.Site(ad.Pos(), "save accounts the size in the generation the entry belongs to (e.gen)")
+						} else {
+							c.Violation("pair:save:generation", ad.Pos(), "save adds the entry's size to a generation other than e.gen (the one Cleanup/updateGeneration/Release will subtract it from): after a rotation between getOrCreate and save the accounted total no longer equals the sum of live entries")
+						}
+					}
+				}
+				if fn := c.Fn("(*cache.Cleaner).markStale"); fn != nil {
+					// the current generation is rotated out and marked stale exactly when the older ones did not free enough
+					var target ssa.Value
+					for _, p := range fn.Params {
+						if p.Name() == "sizeToClean" {
+							target = p
+						}
+					}
+					for _, r := range CallsIn(fn, Callee("(*cache.Cleaner).rotate")) {
+						ok := false
+						for _, f := range FactsAtInstr(r.(ssa.Instruction)) {
+							bo, isB := f.Cond.(*ssa.BinOp)
+							if !isB {
+								continue
+							}
+							usesTarget := target != nil && (DerivesFrom(bo.X, func(v ssa.Value) bool { return v == target }) || DerivesFrom(bo.Y, func(v ssa.Value) bool { return v == target }))
+							usesBytes := DerivesFrom(bo.X, isGenSizeLoad) || DerivesFrom(bo.Y, isGenSizeLoad)
+							if usesTarget && usesBytes {
+								ok = true
+							}
+						}
+						if ok {
+							c.Site(r.Pos(), "markStale rotates out the current generation when the bytes of the older generations are below the amount to clean")
+						} else {
+							c.Violation("dom:markStale:rotate-when-insufficient", r.Pos(), "the decision to also mark the current generation stale no longer compares the bytes collected from older generations with sizeToClean: a cleaning pass can stop above the limit when most data sits in the current generation")
+						}
+					}
+					if len(CallsIn(fn, Callee("(*cache.Cleaner).rotate"))) == 0 {
+						c.Violation("dom:markStale:no-rotate", fn.Pos(), "markStale can no longer clean the current generation")
+					}
+				}
 				if fn := c.Fn("(*cache.Cache).Release"); fn != nil {
 					subs := CallsIn(fn, Callee("(*go.uber.org/atomic.Uint64).Sub"))
 					inLoop := false
@@ -418,4 +460,12 @@ func swapRemoveAscending(fn *ssa.Function) []ssa.Instruction {
 		}
 	}
 	return out
+}
+
+func isGenSizeLoad(v ssa.Value) bool {
+	cl, ok := v.(*ssa.Call)
+	if !ok || CallName(cl) != "(*go.uber.org/atomic.Uint64).Load" {
+		return false
+	}
+	return DerivesFrom(cl.Call.Args[0], func(x ssa.Value) bool { return ValueIsField(x, "cache.Generation", "size") })
 }
